@@ -123,7 +123,18 @@ impl<F: FileSystem + Sync> Server<F> {
     ) -> Result<usize> {
         let in_header: InHeader = r.read_obj().map_err(Error::DecodeMessage)?;
         let mut ctx = SrvContext::<F, S>::new(in_header, r, w);
-        self.remap_ctx_ids(&mut ctx)?;
+        if let Err(e) = self.remap_ctx_ids(&mut ctx) {
+            if in_header.opcode == Opcode::Forget as u32
+                || in_header.opcode == Opcode::BatchForget as u32
+            {
+                // Forget and batch-forget do not require reply.
+                return Err(e);
+            }
+            // The caller ids can not be translated: the request is not served, but the
+            // client still waits for an answer to it.
+            error!("fuse: {}", e);
+            return ctx.reply_error_explicit(io::Error::from_raw_os_error(libc::EOVERFLOW));
+        }
         if ctx.in_header.len > (MAX_BUFFER_SIZE + BUFFER_HEADER_SIZE) {
             if in_header.opcode == Opcode::Forget as u32
                 || in_header.opcode == Opcode::BatchForget as u32
